@@ -615,8 +615,58 @@ def run(ctx):
                       "the records after the gap are applied under wrong numbers - this worker's state diverges from every worker that saw the skipped record",
               how="within an iteration the loop head is unreachable without passing the append (except on the `last number` edge)",
               witness=g.witness([head], edges=last_edges, src=body0[0], edge_ok=NORMAL6) if head in r else None)
+    _r06_9(ctx, p, jcls)
     # the storage side: the cursor advances by one per record handed over
     ctx.note("R06.8_scope", "file backend: consecutive numbering is enumerate()-driven and guarded by R07.4/R07.5")
+
+
+def _r06_9(ctx, p, jcls):
+    """What a JournalStorage method answers is read from the replay result after this call's own sync."""
+    ctx.rule("R06.9", "every JournalStorage answer comes from the replay result, after the sync of the same call: a value-returning path passes "
+             "self._sync_with_backend() first, the returned expression reads no other field of the storage object, and the storage object "
+             "keeps no other state that changes over its lifetime (a worker-local memo would make two workers that read the same records disagree)")
+    from sa.expr import resolve
+    base = p.cls("optuna.storages._base.BaseStorage")
+    api = set(base.methods) if base is not None else set()
+    ctor = {"__init__", "__setstate__", "__getstate__"}
+    n_ret = n_m = 0
+    mutated = {}
+    for mname, f in sorted(jcls.methods.items()):
+        if mname not in ctor:
+            for a in field_accesses(f.node):
+                if a.kind in ("write", "mutate"):
+                    mutated.setdefault(a.field, []).append((f, a.node))
+        if mname not in api or mname.startswith("_"):
+            continue
+        n_m += 1
+        g = CFG(f.node, name=f.qualname)
+        defs = single_defs(f.node)
+        syncs = [n for n in g.stmt_nodes() if any(self_attr(c.func) == "_sync_with_backend" for c in n.calls())]
+        for n in g.stmt_nodes():
+            if not (n.kind == "stmt" and isinstance(n.ast, ast.Return) and n.ast.value is not None):
+                continue
+            v = n.ast.value
+            if isinstance(v, ast.Constant) and v.value is None:
+                continue
+            n_ret += 1
+            ctx.check(bool(syncs) and g.dominated_by(n, syncs), "R06.9", f.short, "answer-after-sync",
+                      message=f"JournalStorage.{mname} can return `{norm(v)[:60]}` on a path that did not call self._sync_with_backend(): the answer does not reflect "
+                              f"records that other workers appended before the call (a deleted / re-created study, a finished trial) - workers that read the same "
+                              f"log disagree", how="every value-returning path is dominated by the sync call", where=where(f, n.ast))
+            r = resolve(v, defs, depth=4)
+            other = sorted({x.attr for x in ast.walk(r) if isinstance(x, ast.Attribute) and isinstance(x.value, ast.Name) and x.value.id == "self"
+                            and x.attr != "_replay_result"})
+            ctx.check(not other, "R06.9", f.short, "answer-from-replay-result",
+                      message=f"JournalStorage.{mname} returns `{norm(v)[:60]}`, which reads self.{', self.'.join(other)}: state kept by this storage object "
+                              f"outside the replay result is this worker's own history, not a function of the records read",
+                      how="returned expressions read self._replay_result (and arguments) only", where=where(f, n.ast))
+    extra = {k: v for k, v in mutated.items() if k != "_replay_result"}
+    ctx.check(not extra, "R06.9", jcls.name, "no-other-changing-state",
+              message="JournalStorage changes " + ", ".join(f"self.{k} in {sorted({f.name for f, _ in v})}" for k, v in sorted(extra.items()))
+                      + " after construction: state besides the replay result that depends on which calls this worker made",
+              how="fields written or mutated outside __init__/__setstate__: only _replay_result")
+    ctx.floor("R06.9", "value_returning_paths", n_ret, 14)
+    ctx.floor("R06.9", "storage_api_methods", n_m, 19)
 
 
 def _root_field(e):
